@@ -143,10 +143,7 @@ class Task (BaseTask):
     BaseTask.__init__(self)
 
   def run (self):
-    g = self.target(*self.args, **self.kwargs)
-    x = g.send(None)
-    while True:
-      x = g.send((yield x))
+    return (yield from self.target(*self.args, **self.kwargs))
 
   def __str__ (self):
     return "<%s %s tid:%s>" % (type(self).__name__,
